@@ -48,6 +48,12 @@ CORPUS = [
     {'jsonrpc': '2.0', 'method': 'noargs', 'id': 13},
     {'jsonrpc': '2.0', 'method': 'sub.null', 'params': [], 'id': 14},
     {'jsonrpc': '2.0', 'method': 'view3.vm', 'id': 15},
+    {'jsonrpc': '2.0', 'method': 'tw_ctx', 'params': [5], 'id': 16},
+    {'jsonrpc': '2.0', 'method': 'tw_plain', 'params': {'ctx': 'bob'}, 'id': 17},
+    {'jsonrpc': '2.0', 'method': 'tw_plain', 'params': ['x', 'y'], 'id': 18},
+    {'jsonrpc': '2.0', 'method': 'tw_ctx', 'params': [], 'id': 19},
+    {'jsonrpc': '2.0', 'method': 'fmt_strict', 'params': ['127.0.0.1'], 'id': 20},
+    {'jsonrpc': '2.0', 'method': 'fmt_lenient', 'params': ['localhost'], 'id': 21},
 ]
 VALIDATORS = (None, 'pydantic', 'jsonschema')
 TEXTS = [json.dumps(x) for x in CORPUS] + ['{', '']
@@ -58,7 +64,16 @@ def methods():
     ms.append(D.M('view2.vm', [D.P('a')], D.ECHO, view=True))       # a view without context
     ms.append(D.M('ctxonly', [D.P('ctx')], D.ECHO, ctx='ctx'))        # nothing but the (keyword) context parameter
     ms.append(D.M('view3.vm', [], D.ECHO, view=True, ctx='context'))  # a view method without parameters
+    # ONE function object exposed twice: with a context designation and without
+    ms.append(D.M('tw', [D.P('ctx'), D.P('a', d=True)], D.ECHO, key='tw_ctx', fn='tw', ctx='ctx'))
+    ms.append(D.M('tw', [D.P('ctx'), D.P('a', d=True)], D.ECHO, key='tw_plain', fn='tw'))
+    # validator arguments given per method (used with the schema validator): a format is an assertion only where asked for
+    ms.append(D.M('fmt_strict', [D.P('a')], D.ECHO, js={'format_checker': True}))
+    ms.append(D.M('fmt_lenient', [D.P('a')], D.ECHO, js={'format_checker': False}))
     return ms
+
+
+FMT_SCHEMA = {'type': 'object', 'properties': {'a': {'format': 'ipv4'}}}
 
 
 def make_case(texts, mode='history', n=None, threads=None, keying='fixed', validator=None, handlers=None):
@@ -82,7 +97,13 @@ def generate(tier, rng):
     for a in TEXTS:
         for b in TEXTS:
             yield make_case([a, b])
-    n_hist = 30000 if thorough else 1500
+    # ... and, with the schema / type validators attached, every ordered pair of the requests that exercise them
+    for v in VALIDATORS[1:]:
+        sub = [t for t in TEXTS if any(k in t for k in ('fmt_', 'tw_', 'ctxonly', 'view3'))] + [TEXTS[0], TEXTS[5], TEXTS[10]]
+        for a in sub:
+            for b in sub:
+                yield make_case([a, b], validator=v)
+    n_hist = 30000 if thorough else 900
     for i in range(n_hist):
         length = rng.randrange(1, 12 if thorough else 7)
         yield make_case([rng.choice(TEXTS) for _ in range(length)] + [rng.choice(TEXTS)], validator=VALIDATORS[i % 3] if i % 2 else None,
@@ -131,6 +152,7 @@ def fresh_dispatcher(cfg, is_async, validator=None):
                                                               for i, h in enumerate(e['hs'])]
             for e in cfg['handlers']}
     d = (pjrpc.server.AsyncDispatcher if is_async else pjrpc.server.Dispatcher)(**kwargs)
+    made = {}
     for m in cfg['methods']:
         key = m.get('key') or m['name']
         if m.get('view'):
@@ -140,9 +162,14 @@ def fresh_dispatcher(cfg, is_async, validator=None):
                 v.validate(**kw)(cls.vm) if kw else v.validate(cls.vm)
             d.registry.add_methods(pjrpc.server.dispatcher.ViewMethod(cls, 'vm', key, m.get('ctx'), bool(m.get('positional'))))
         else:
-            g = S.make_callable(key, m['sig'], is_async, False, fresh=True)
+            fkey = m.get('fn') or key
+            g = made.get(fkey) or S.make_callable(fkey, m['sig'], is_async, False, fresh=True)
+            made[fkey] = g
             if validator:
                 v, kw = shared_validator(validator)
+                if validator == 'jsonschema' and m.get('js'):
+                    import jsonschema as _js
+                    kw = dict(schema=FMT_SCHEMA, **({'format_checker': _js.FormatChecker()} if m['js']['format_checker'] else {}))
                 v.validate(**kw)(g) if kw else v.validate(g)
             d.registry.add_methods(pjrpc.server.Method(g, key, m.get('ctx'), bool(m.get('positional'))))
     return d
@@ -185,6 +212,7 @@ class Ctx2(S.Ctx):
 def run_half(c, is_async):
     S.set_bodies(c['cfg'])
     vk = c.get('validator')
+    _SHARED.clear()          # one validator object per case: what one case leaves in it cannot blur the next case's probes
     out = {}
     if c['mode'] == 'history':
         # the probe alone on a fresh dispatcher, *before* the history has run
